@@ -20,7 +20,7 @@
    (race detector stress); absence of deadlock (the scheduler sees every acquisition). *)
 From Coq Require Import String List Bool Arith.
 From Anko Require Import Base.Assoc Env.EnvModel Env.EnvCases Conc.Lin Conc.EnvConc Conc.LockTable.
-From Anko Require Conc.LockReduction.
+From Anko Require Conc.LockReduction Conc.EnvLocks.
 Import ListNotations.
 
 Theorem linearizable_iff_sequential_order : forall h0 ts fin,
@@ -61,15 +61,29 @@ Theorem one_section_per_operation_makes_every_schedule_linearizable :
   forall (St Op Out : Type) (step : St -> Op -> St * Out) (is_write : Op -> bool) (micro : Op -> list (St -> St)),
   (forall st o, is_write o = false -> fst (step st o) = st) ->
   (forall st o, is_write o = true -> LockReduction.run_micro (micro o) st = fst (step st o)) ->
-  forall (out_eqb : Out -> Out -> bool), (forall y, out_eqb y y = true) ->
-  forall st ts s' (final : St -> bool),
+  forall (out_eqb : Out -> Out -> bool) st ts s' (final : St -> bool),
   LockReduction.frun step is_write micro (LockReduction.start st ts) s' -> LockReduction.finished s' ->
   final (LockReduction.sigma s') = true ->
+  clean_obs out_eqb (map LockReduction.hist (LockReduction.ths s')) ->
   Lin step out_eqb final st (map LockReduction.hist (LockReduction.ths s')).
 Proof.
-  intros St Op Out step is_write micro Hr Hm out_eqb Hrefl st ts s' final.
-  apply (LockReduction.every_schedule_is_linearizable step is_write micro Hr Hm out_eqb Hrefl).
+  intros St Op Out step is_write micro Hr Hm out_eqb st ts s' final.
+  apply (LockReduction.every_schedule_is_linearizable step is_write micro Hr Hm out_eqb).
 Qed.
+
+(* the instance for package env's model: lookups, listings and the snapshot of Copy are pure, so with
+   every method one critical section (the lock table) every schedule of environment operations is
+   explained by the sequential model *)
+Theorem environment_operations_under_one_lock_linearize :
+  forall h0 ts s' (final : list cscope -> bool),
+  LockReduction.frun kstep EnvLocks.k_is_write EnvLocks.k_micro (LockReduction.start h0 ts) s' -> LockReduction.finished s' ->
+  final (LockReduction.sigma s') = true ->
+  clean_obs kout_eqb (map LockReduction.hist (LockReduction.ths s')) ->
+  Lin kstep kout_eqb final h0 (map LockReduction.hist (LockReduction.ths s')).
+Proof. exact EnvLocks.environment_schedules_are_linearizable. Qed.
+
+Theorem environment_reads_do_not_change_the_scopes : forall h o, EnvLocks.k_is_write o = false -> fst (kstep h o) = h.
+Proof. exact EnvLocks.env_reads_are_pure. Qed.
 
 (* not vacuous: a counter with a two-step increment and a read; the reader gets in between two increments *)
 Definition ctr_step (st : nat) (o : bool) : nat * nat := if o then (S (S st), st) else (st, st).
@@ -100,3 +114,4 @@ Print Assumptions atomic_operations_linearize.
 Print Assumptions copy_is_a_snapshot.
 Print Assumptions lock_table_condition.
 Print Assumptions one_section_per_operation_makes_every_schedule_linearizable.
+Print Assumptions environment_operations_under_one_lock_linearize.
